@@ -211,6 +211,43 @@ def check_positional(ctx):
                  detail=bad or f"{n} IR trees up to depth 3", confirmed=bad is not None)]
 
 
+# compiled code is only valid for the kinds of value it was admitted for (_ast_to_ir: exact int / float, ndarray); the compile
+# decision is memoised on the syntax-tree node, which outlives a rebinding - so every CALL of compiled code has to be guarded by the
+# same admission test on the actual arguments (structural obligation on the three call sites)
+def compiled_calls_guarded(ctx):
+    s_ = ctx['src']
+    rows_ = []
+    t_ = s_.tree('klongpy/interpreter.py')
+    calls, guarded = 0, 0
+    for node in ast.walk(t_):
+        if isinstance(node, ast.If):
+            test = ast.unparse(node.test)
+            for sub in ast.walk(node):
+                if isinstance(sub, ast.Call) and isinstance(sub.func, ast.Name) and sub.func.id == 'fn' and any(isinstance(a, ast.Starred) for a in sub.args):
+                    if test == 'self._compiled_for(args)' and sub in [c for b in node.body for c in ast.walk(b)]:
+                        guarded += 1
+    for node in ast.walk(t_):
+        if isinstance(node, ast.Call) and isinstance(node.func, ast.Name) and node.func.id == 'fn' and any(isinstance(a, ast.Starred) for a in node.args):
+            calls += 1
+    guard = s_.find('klongpy/interpreter.py::KlongInterpreter._compiled_for')
+    gtxt = ast.unparse(guard.body[-1]) if guard is not None else None
+    want = 'return all((type(a) is int or type(a) is float or isinstance(a, nd) for a in args))'
+    ok = calls >= 3 and guarded == calls and gtxt == want
+    rows_.append(dict(name='klongpy/interpreter.py::KlongInterpreter.eval#compiled-code-called-only-on-admitted-kinds', ok=ok, backend='ast-structural', confirmed=False,
+                      detail=(f"{calls} calls of compiled code, each under `if self._compiled_for(args)`; the guard admits exactly int, float and ndarray" if ok else
+                              f"{calls} calls of compiled code, {guarded} of them guarded by the admission test; guard body: {gtxt!r}")))
+    if not ok:
+        from pyvc.run import run_replay
+        import replay.c05 as rp5
+        r = run_replay(rp5.replay_rebinding, {}, rows_[0]['name'], timeout_s=90)
+        rows_[0]['confirmed'] = bool(r.get('confirmed'))
+        rows_[0]['replay'] = dict(result=r)
+        if r.get('confirmed'):
+            rows_[0]['detail'] += f" | real code: {r.get('detail')}"
+    return rows_
+compiled_calls_guarded.__name__ = 'compiled-calls-guarded'
+
+
 def build(reg, src):
     c03.build(reg, src, verify_evaluator=False)
     reg.replays[:] = []
@@ -223,6 +260,8 @@ def build(reg, src):
         "positional check compares _collect_params with that order)",
         "torch's _ir_to_source is extracted from the source text and executed standalone (torch itself is not needed)",
     ]
+    reg.assumed_calls['self._compiled_for'] = Bool       # the admission test on the actual arguments: its body is checked structurally (compiled-calls-guarded)
+    reg.pure_calls.add('self._compiled_for')
     # (4) fallback: verify eval and __call__ with the compiled call's exceptions tagged
     not_compiled_exc = lambda s, e: VBool(getattr(e, 'tag', None) != 'compiled')
     reg.fns[KI + 'eval'].verify = True
@@ -253,6 +292,8 @@ def build(reg, src):
            ensures=[lambda s, r: And(s.g('through_setitem') == 1, s.g('direct_context_writes') == 0), lambda s, r: same(r, s.v0)])
     reg.extra_checks.append(check_templates)
     reg.extra_checks.append(check_positional)
+
+    reg.extra_checks.append(compiled_calls_guarded)
 
     def compile_sequences(ctx):
         from pyvc.run import run_replay
